@@ -183,14 +183,22 @@ class StaleForward:
 MODULE_CLS = ExtClass("Module", (), {})
 
 
-def mk_module(ctx: Ctx, name: str, transformed_before: bool, it: Any) -> ObjVal:
+def mk_module(ctx: Ctx, name: str, transformed_before: bool, it: Any, root: str = "user_class") -> ObjVal:
     """an arbitrary module: one parameter, one child, a forward method; optionally the state a
-    previous apply_transform leaves behind"""
-    cls = ClassVal("UserModel", [MODULE_CLS], it.get_module("unit_scaling.transforms.utils"), "UserModel")
+    previous apply_transform leaves behind.  root: its class is a user class, or a class of
+    torch.nn (whose forward lives in a file TorchDynamo does not start tracing in)"""
+    home = it.get_module("unit_scaling.transforms.utils")
+    if root == "torch_nn_layer":
+        from pyvc.interp import ModuleVal
+
+        home = ModuleVal("torch.nn.modules.linear")
+        home.loaded = True
+        home.env.vars["__name__"] = "torch.nn.modules.linear"
+    cls = ClassVal("UserModel" if root == "user_class" else "Linear", [MODULE_CLS], home, "UserModel" if root == "user_class" else "Linear")
     import ast
 
     fdef = ast.parse("def forward(self, x):\n    return x\n").body[0]
-    cls.attrs["forward"] = FuncVal(fdef, it.get_module("unit_scaling.transforms.utils").env, it.get_module("unit_scaling.transforms.utils"), "UserModel.forward", cls=cls)
+    cls.attrs["forward"] = FuncVal(fdef, home.env, home, cls.name + ".forward", cls=cls)
     m = ObjVal(cls)
     m.attrs["weight"] = leaf(ctx, name + "_weight", Shape([Run(ctx, "w")]))
     m.attrs["weight"].is_parameter = True
@@ -214,16 +222,16 @@ def s_to_user_modules(interp: Any, b: Dict[str, Any]) -> Any:
     return None
 
 
-def _apply_transform_job(transformed_before: bool) -> Callable[[], Record]:
+def _apply_transform_job(transformed_before: bool, root: str = "user_class") -> Callable[[], Record]:
     def run() -> Record:
         qual = TU + "apply_transform"
         tag = "C17:transforms.utils.apply_transform"
-        cs = f"[source_already_transformed={transformed_before}]"
+        cs = f"[source_already_transformed={transformed_before}]" if root == "user_class" else f"[source_already_transformed={transformed_before},root={root}]"
 
         def build(ctx: Ctx) -> Any:
             log: List[Any] = []
             it = mk_interp(ctx, verifying=[qual, TU + "_compose_backends", TU + "patch_to_expand_modules"], extra_contracts={TU + "torch_nn_modules_to_user_modules": s_to_user_modules}, hook=_hook_factory(log))
-            m = mk_module(ctx, "m", transformed_before, it)
+            m = mk_module(ctx, "m", transformed_before, it, root)
             snap = snapshot(m)
             backend = opaque(ctx, "new_backend")
             nrf = [opaque(ctx, "fn1"), opaque(ctx, "fn2")]
@@ -259,7 +267,28 @@ def _apply_transform_job(transformed_before: bool) -> Callable[[], Record]:
             ctx.oblige(f"{tag}:retrace_on_first_call{cs}", res.attrs.get("rerun_transform") is False and any(e[0] == "optimize" for e in log[: n1]))
             bf = res.attrs.get("base_forward")
             orig_fwd = m.cls.attrs["forward"]
-            ctx.oblige(f"{tag}:base_forward_is_the_ORIGINAL_forward_bound_to_the_copy(earlier wrappers not wrapped again){cs}", isinstance(bf, BoundMethod) and bf.obj is res and bf.func is orig_fwd)
+
+            def is_original(f: Any) -> bool:
+                """the original forward itself, or (root of a torch.nn class) a user-code function that
+                delegates to it with the same arguments"""
+                if f is orig_fwd:
+                    return True
+                if root == "user_class" or not isinstance(f, FuncVal) or f.module.name.startswith("torch.nn"):
+                    return False
+                probe = opaque(ctx, "probe_argument")
+                try:
+                    return p.interp.call(f, [res, probe], {}) is probe  # the model's original forward returns its argument
+                except PyRaise:
+                    return False
+
+            ctx.oblige(f"{tag}:base_forward_is_the_ORIGINAL_forward_bound_to_the_copy(earlier wrappers not wrapped again){cs}", isinstance(bf, BoundMethod) and bf.obj is res and is_original(bf.func))
+            # precondition of the ASSUMED TorchDynamo contract: tracing starts in user code only -- the module
+            # handed to it must be of a user class whose forward is defined outside torch.nn (root included)
+            rc = res.cls
+            rmod = rc.attrs.get("__module__") or getattr(getattr(rc, "module", None), "name", "?")
+            fwd = next((c.attrs["forward"] for c in rc.mro() if isinstance(c, ClassVal) and "forward" in c.attrs), None)
+            ctx.oblige(f"{tag}:module_handed_to_dynamo_is_of_a_user_class_with_a_user_code_forward{cs}", not str(rmod).startswith(("torch.nn", "torch.ao")) and isinstance(fwd, FuncVal) and not fwd.module.name.startswith(("torch.nn", "torch.ao")), cls_module=str(rmod), forward_defined_in=getattr(getattr(fwd, "module", None), "name", "?"))
+            ctx.oblige(f"{tag}:result_is_still_an_instance_of_the_source_class{cs}", m.cls in rc.mro())
             ctx.oblige(f"{tag}:non_recurse_functions_registered{cs}", [e[1] for e in log_apply if e[0] == "allow_in_graph"] == nrf)
             calls = ctx.__dict__.get("to_user_calls", [])
             ctx.oblige(f"{tag}:torch_nn_children_rehomed_on_the_copy_only{cs}", len(calls) == 1 and calls[0] is res)
@@ -277,11 +306,11 @@ def _apply_transform_job(transformed_before: bool) -> Callable[[], Record]:
                 same_list = isinstance(comp, FuncVal) and comp.env.has("backends") and comp.env.lookup("backends") is nb
                 ctx.oblige(f"{tag}:composite_backend_closes_over_the_results_own_backend_list(in-place reordering is effective){cs}", same_list)
             if runs:
-                ctx.oblige(f"{tag}:dynamo_sees_the_original_forward_not_the_wrapper{cs}", all(isinstance(r[2], BoundMethod) and r[2].obj is res and r[2].func is orig_fwd for r in runs))
+                ctx.oblige(f"{tag}:dynamo_sees_the_original_forward_not_the_wrapper{cs}", all(isinstance(r[2], BoundMethod) and r[2].obj is res and is_original(r[2].func) for r in runs))
             ctx.oblige(f"{tag}:wrapper_restored_after_each_call{cs}", isinstance(res.attrs.get("forward"), FuncVal) and res.attrs["forward"].qualname.endswith("new_forward"))
             return None
 
-        return run_config(qual, {"source_already_transformed": transformed_before}, build, post)
+        return run_config(qual, {"source_already_transformed": transformed_before, "root": root}, build, post)
 
     return run
 
@@ -293,6 +322,7 @@ def interp_getattr(it: Any, obj: Any, name: str) -> Any:
 for _t in (False, True):
     # simulate_format / unit_scale / track_scales are all built on apply_transform's contract
     register(Job(f"c17:apply_transform[transformed_before={_t}]", ["C17", "C09", "C15", "C16", "C18"], TU + "apply_transform", {"source_already_transformed": _t}, _apply_transform_job(_t), shared=True))
+    register(Job(f"c17:apply_transform[transformed_before={_t},root=torch_nn_layer]", ["C17", "C15", "C16", "C18"], TU + "apply_transform", {"source_already_transformed": _t, "root": "torch_nn_layer"}, _apply_transform_job(_t, "torch_nn_layer"), shared=True))
 
 
 class BackendFn:
